@@ -9,6 +9,7 @@ from __future__ import annotations
 
 import builtins
 import numbers
+import sys
 import time
 
 import z3
@@ -702,6 +703,16 @@ class SymRange:
 # --------------------------------------------------------------------------- the engine
 
 
+def _site():
+    """Branch signature for the determinism check of re-execution: the source location of
+    the nearest frame outside the engine.  (Not the condition's s-expression: z3's
+    simplifier orders commutative arguments by AST id, which differs between runs.)"""
+    f = sys._getframe(2)
+    while f is not None and f.f_code.co_filename.endswith(("symx/core.py", "symx/world.py")):
+        f = f.f_back
+    return f"{f.f_code.co_filename}:{f.f_lineno}" if f is not None else "?"
+
+
 class Stats(dict):
     def bump(self, k, n=1):
         self[k] = self.get(k, 0) + n
@@ -777,7 +788,7 @@ class Engine:
             return False
         k = self.pos
         self.pos += 1
-        sig = cond.sexpr()
+        sig = _site()
         if k < len(self.prefix):
             d = self.prefix[k]
             if self.prefix_sig[k] != sig:
